@@ -26,8 +26,11 @@ synchronisation-relevant operation, in source order:
 
 Every step that is visible to the client appends its `Event` to the ghost trace and feeds the monitor
 (`Spec.BatchWriter.Mon`), so `mon = Mon.run trace` by construction (`Proofs`: `mon_eq_run`).
-Not modelled: store errors (`Batched()`/`Commit()` failing makes the writer panic), Int32 overflow of the
-counter, batch size 0 (`Add` would index out of range).  Core Lean only.
+Store errors (`Batched()` / `Commit()` failing makes the writer goroutine panic = the process dies) are `sysE` in
+`Model/BatchWriterErr.lean`; batch sizes ≤ 0 (one object per batch since fix 681b215) are `bsize = 0`; the Int32 counter
+is an unbounded integer here (`C08_counter_in_int32_range`).  The step functions of this file are proved equal to the
+interpreted programs that three go/ast translators generate from the source on every run (`Props/BatchWriterColl.lean`,
+`Props/BatchWriterCalls.lean`, `Props/BatchWriterLoop.lean`).  Core Lean only.
 -/
 namespace Hive.BatchWriter
 open Hive.Conc Hive.Spec.BatchWriter
